@@ -112,7 +112,7 @@ ApplyConfig(m, o, e, obj, step) ==
       cfg2 == IF "io" \in DOMAIN e THEN [cfg1 EXCEPT !.M = [sem |-> cfg1.M.sem, io |-> e.io]] ELSE cfg1 IN
   IF ("io" \in DOMAIN e /\ m.phase \in {"parsed", "offline"})
      \/ ("io" \notin DOMAIN e /\ "tol" \in DOMAIN e /\ m.phase \in {"parsed", "offline", "online", "pastified"} /\ e.period = m.cfg.period)
-  THEN R(ReconfigureF(m, cfg2), o, ExcClass(TRUE, e, "config.exc", step), 0) ELSE
+  THEN R(ReconfigureF(m, cfg2), o, ExcClass(TRUE, e, "config.exc", step), 0) ELSE      \* (online: Rtamt!RetoleranceF is the same function)
   IF ~IsWritten(obj) \/ m.phase \notin {"parsed", "offline"} THEN R(m, [o EXCEPT !.dead = TRUE], Ok, 0)
   ELSE LET st == NormStatus(obj.written, e.units) IN
        IF st = "overflow" THEN R(m, [o EXCEPT !.dead = TRUE], Ok, 1)
